@@ -1,3 +1,4 @@
+import SdxProofs.BuildTable
 import SdxModel.Sample
 import Props.C02
 import Props.C03
@@ -380,5 +381,38 @@ theorem C08_synthesize_single_rows (E : Env α) (cols : List (RawCol α)) (nrows
         hstream mstream rows drawn left h
       simpa only [hsz] using this
     · cases hF
+
+/-- **C08 through `build_table`: per-column patching and left-owned stitching.**  `Forest.init` on a table of `N ≥ 1` rows with one
+non-null entity id per row, then the composed `build_table` over any cluster plan whose derived clusters are patched in (no stitch
+columns — `NoClustering`, i.e. per-column patching) or stitched with the left side as owner: whatever the data, the plan, the salt
+and every RNG stream (the main one, and the two derived ones of every materialised cluster), the assembled table has exactly the rows
+of the initial cluster's microtable (`buildTable_rows`: `_do_patch` and a left-owned `_do_stitch` keep the left rows), hence
+* it is empty only if `N < low_threshold + (low_mean_gap + 8.5)·layer_sd`;
+* otherwise it has between `N − 1 − (17·layer_noise_sd + ½)` and `N + 17·layer_noise_sd + ½` rows. -/
+theorem C08_patched_table_rows (E : Env α) (inp : ForestIn α) (F : Forest α) (hinit : Forest.init E inp = .ok F)
+    (hn : 0 < inp.raw.size) (hkind : inp.kind = .unique) (hids : OneIdPerRow inp.pids inp.raw.size)
+    (hlt : 2 ≤ inp.ap.supp.lt) (hsd : 0 ≤ inp.ap.supp.sd) (hgap : 0 ≤ inp.ap.supp.gap) (hnsd : 0 ≤ inp.ap.noiseSd)
+    (hz : ∀ s, |E.z s| ≤ 17 / 2)
+    (convs : List (Conv α)) (isIntegral : List Bool) (entropy : List α) (threshRel : α) (cl : Clusters)
+    (hini : 1 ≤ cl.initial.length) (hown : ∀ dc ∈ cl.derivedClusters, dc.stitch = [] ∨ dc.owner = .left)
+    (streams : List (List Nat × List (Draw α))) (s s' : List (Draw α)) (res : MTable (Cell α) α)
+    (h : (buildTable E F convs isIntegral entropy threshRel cl streams).run s = .ok (res, s')) :
+    (res.1 = [] → ((inp.raw.size : Int) : α) < (inp.ap.supp.lt : α) + (inp.ap.supp.gap + 17 / 2) * inp.ap.supp.sd) ∧
+    (res.1 ≠ [] → ((inp.raw.size : Int) : α) - 1 - (17 * inp.ap.noiseSd + 1 / 2) ≤ ((res.1.length : Int) : α) ∧
+      ((res.1.length : Int) : α) ≤ ((inp.raw.size : Int) : α) + (17 * inp.ap.noiseSd + 1 / 2)) := by
+  obtain ⟨init, s0, hm, hlen⟩ := buildTable_rows E F convs isIntegral entropy threshRel cl streams s s' res hown h
+  obtain ⟨_, drawn, left, hmt⟩ := materializeGM_tree E F convs _ _ _ _ _ hm
+  have hk : 1 ≤ (sortAscStable (fun a b => decide (a < b)) cl.initial).length := by rw [sortAscStable_length]; exact hini
+  have := C08_single_cluster_rows E inp F hinit hn hkind hids hlt hsd hgap hnsd hz convs _ hk _ _ init.1 drawn left hmt
+  have he : res.1 = [] ↔ init.1 = [] := by
+    rw [← List.length_eq_zero_iff, ← List.length_eq_zero_iff, hlen]
+  rw [hlen]
+  exact ⟨fun h0 => this.1 (he.mp h0), fun h0 => this.2 (fun h1 => h0 (he.mpr h1))⟩
+
+/-- Non-vacuity: the plan of `NoClustering` over three columns — initial cluster `[0]`, columns 1 and 2 patched in — meets the plan
+hypotheses. -/
+example : let cl : Clusters := { initial := [0], derivedClusters := [⟨.shared, [], [1]⟩, ⟨.shared, [], [2]⟩] }
+    1 ≤ cl.initial.length ∧ ∀ dc ∈ cl.derivedClusters, dc.stitch = [] ∨ dc.owner = .left := by
+  simp
 
 end
